@@ -178,8 +178,11 @@ type Node struct {
 	Mdns *mdns.MdnsManager
 	Prov *fabricProvider
 	App  *App
-	Down bool
+	down atomic.Bool
 }
+
+// IsDown: the hub of this node was shut down.
+func (n *Node) IsDown() bool { return n.down.Load() }
 
 // Fabric connects the nodes.
 type Fabric struct {
@@ -321,7 +324,7 @@ func (f *Fabric) StartNode(n *Node) error {
 		mw := &mdnsWrap{MdnsManager: n.Mdns, prov: n.Prov}
 		n.Hub = hub.NewHub(n.App, mw, port, n.Cert, local)
 		n.Hub.Start()
-		n.Down = false
+		n.down.Store(false)
 		// Hub.Start swallows listen errors: make sure it is our hub that answers
 		if f.reaches(n) {
 			return nil
@@ -399,7 +402,7 @@ func (f *Fabric) Close() {
 	}
 	f.mu.Unlock()
 	for _, n := range nodes {
-		if n.Hub != nil && !n.Down {
+		if n.Hub != nil && !n.IsDown() {
 			n.Hub.Shutdown()
 		}
 	}
@@ -575,7 +578,7 @@ func WaitFor(max time.Duration, cond func() bool) bool {
 // Completed: hub x has a registered, completed connection to y.
 func (f *Fabric) Completed(x, y int) bool {
 	nx, ny := f.Nodes[x], f.Nodes[y]
-	if nx.Down || nx.Hub == nil {
+	if nx.IsDown() || nx.Hub == nil {
 		return false
 	}
 	c := nx.Hub.VerifRegistry()[ny.SKI]
